@@ -1,0 +1,33 @@
+//go:build verif
+
+// Machine-checked contracts (comment-only; compiled only under the build tag "verif").
+// C09: the history controller (feature gate RolloutHistory) must not crash on Rollouts the webhook accepts: a Rollout
+// without traffic routing has no Service / Ingress / HTTPRoute to record.
+package rollouthistory
+
+//@ define hasRouting(ro) = ro.Spec.Strategy.Canary != nil && len(ro.Spec.Strategy.Canary.TrafficRoutings) >= 1
+
+//@ func (*RolloutHistoryReconciler).getServiceInfo
+//@ props C09
+//@ requires r != nil && rollout != nil
+//@ requires routed: hasRouting(rollout)
+
+//@ func (*RolloutHistoryReconciler).getTrafficRoutingInfo
+//@ props C09
+//@ requires r != nil && rollout != nil
+//@ requires routed: hasRouting(rollout)
+
+//@ func (*RolloutHistoryReconciler).getGateWayInfo
+//@ props C09
+//@ requires r != nil && rollout != nil
+//@ requires routed: hasRouting(rollout) && rollout.Spec.Strategy.Canary.TrafficRoutings[0].Gateway != nil && rollout.Spec.Strategy.Canary.TrafficRoutings[0].Gateway.HTTPRouteName != nil
+
+//@ func (*RolloutHistoryReconciler).getIngressInfo
+//@ props C09
+//@ requires r != nil && rollout != nil
+//@ requires routed: hasRouting(rollout) && rollout.Spec.Strategy.Canary.TrafficRoutings[0].Ingress != nil
+
+// the entry point: any Rollout read from the API server (a canary status is all Reconcile has checked)
+//@ func (*RolloutHistoryReconciler).getRolloutHistorySpec
+//@ props C09
+//@ requires r != nil && rollout != nil && rollout.Status.CanaryStatus != nil
